@@ -561,6 +561,47 @@ def check(prog, rep):
                                        f"`{src(y)[:50]}` (line {y.lineno}) writes into Problem.{a} from the handler of `except {', '.join(sorted(kinds))}` around `{src(works[0])[:40]}`: a failure of that call -- transient or not -- is "
                                        f"recorded in the cache, so the next solve of the same problem starts from what the failed attempt left and differs from a solve that never failed",
                                        loc=f"{fi.module.rel}:{y.lineno}", detail="fault-recorded-in-cache", robust=True)
+    # a memo kept inside a Problem cache and updated in two steps, the key before the value it vouches for: if computing
+    # the value raises, the memo says "this point has been evaluated" and hands out the value of another point.
+    SAFE_CALLS = {"float", "int", "len", "bool", "isinstance", "np.array", "np.asarray", "np.copy", "tuple", "list", "id"}
+    for fi in prog.functions.values():
+        recv = problem_receivers(fi)
+        if not recv:
+            continue
+        asg = local_assignments(fi.node)
+        for a in sorted(pm.cache_attrs):
+            alias = {nm for nm, vals in asg.items() for v in vals if isinstance(v, ast.Attribute) and dotted(v.value) in recv and v.attr == a}
+            persist = {nm for nm, vals in asg.items() for v in vals if isinstance(v, ast.Subscript) and isinstance(v.value, ast.Name) and v.value.id in alias}
+            if not persist:
+                continue
+            for blk_owner in ast.walk(fi.node):
+                for field in ("body", "orelse", "finalbody"):
+                    blk = getattr(blk_owner, field, None)
+                    if not isinstance(blk, list):
+                        continue
+                    for s1, s2 in zip(blk, blk[1:]):
+                        if not (isinstance(s1, ast.Assign) and isinstance(s2, ast.Assign) and len(s1.targets) == 1 and len(s2.targets) == 1):
+                            continue
+                        t1, t2 = s1.targets[0], s2.targets[0]
+                        if not (isinstance(t1, ast.Subscript) and isinstance(t2, ast.Subscript) and isinstance(t1.value, ast.Name) and isinstance(t2.value, ast.Name)
+                                and t1.value.id == t2.value.id and t1.value.id in persist and isinstance(t1.slice, ast.Constant) and isinstance(t2.slice, ast.Constant) and t1.slice.value != t2.slice.value):
+                            continue
+                        risky = [y for y in ast.walk(s2.value) if isinstance(y, ast.Call) and (dotted(y.func) or "?") not in SAFE_CALLS]
+                        if not risky:
+                            continue
+                        P, k1, k2 = t1.value.id, t1.slice.value, t2.slice.value
+
+                        def reads(node, key):
+                            return [y for y in ast.walk(node) if isinstance(y, ast.Subscript) and isinstance(y.ctx, ast.Load) and isinstance(y.value, ast.Name) and y.value.id == P and isinstance(y.slice, ast.Constant) and y.slice.value == key]
+
+                        tested = [t for t in ast.walk(fi.node) if isinstance(t, ast.If) and reads(t.test, k1) and not reads(t.test, k2)]
+                        handed = [r for r in ast.walk(fi.node) if isinstance(r, ast.Return) and r.value is not None and reads(r.value, k2)]
+                        if tested and handed:
+                            rep.ob("R20.4", f"{fi.qual.split(':')[1]}:Problem.{a}[{P}]", False,
+                                   f"`{P}` lives in Problem.{a} and is updated in two steps: `{src(s1)[:40]}` (line {s1.lineno}) records the key, then `{src(s2)[:40]}` (line {s2.lineno}) computes the value through "
+                                   f"`{src(risky[0])[:30]}`; line {tested[0].lineno} trusts `{P}[{k1!r}]` alone.  If that call raises, the key of the failed evaluation stays next to the value of an earlier one, and "
+                                   f"the next solve of the same problem is handed that value for a point it was never computed at",
+                                   loc=f"{fi.module.rel}:{s1.lineno}", detail="torn-memo", robust=True)
     from .common import cache_inplace_mutations
     muts = cache_inplace_mutations(prog, pm)
     for f, n, what in muts:
